@@ -160,6 +160,17 @@ func (c *FnCtx) doCall(frame *Frame, st *State, in ssa.Instruction, call *ssa.Ca
 		if p, ok := call.Value.(*ssa.Parameter); ok {
 			pk := c.key + "@param:" + p.Name()
 			if fc := c.eng.cs.Funcs[pk]; fc != nil {
+				// the contract of a func-typed parameter may also name the enclosing function's
+				// parameters (ghost bookkeeping on objects both sides can see)
+				c.callOuter = map[string]Val{}
+				names := frame.contract.Names
+				for i, op := range frame.fn.Params {
+					n := op.Name()
+					if i < len(names) {
+						n = names[i]
+					}
+					c.callOuter[n] = st.env[op]
+				}
 				c.callByContract(frame, st, in, nil, fc, pk, args, rt, k)
 				return
 			}
@@ -385,6 +396,12 @@ func (c *FnCtx) callByContract(frame *Frame, st *State, in ssa.Instruction, call
 			env.vars[names[i]] = a
 		}
 	}
+	for n, v := range c.callOuter {
+		if _, bound := env.vars[n]; !bound {
+			env.vars[n] = v
+		}
+	}
+	c.callOuter = nil
 	short := key[strings.LastIndex(key, "/")+1:]
 	// requires_locked clauses are rely assumptions about lock-guarded state (justified by the
 	// client-side discipline stated in the ordinary preconditions); they are not call-site obligations
@@ -418,6 +435,9 @@ func (c *FnCtx) callByContract(frame *Frame, st *State, in ssa.Instruction, call
 			st.assume(eq(res.S, fn))
 		}
 	}
+	// finish assumes the callee's postconditions in state st (normally the state reached above; the
+	// callback rule of callbacks.go calls it once per path) and continues with k
+	finish := func(st *State, res Val) {
 	// fresh results are allocated after the call; model: result refs are nil, old, or new
 	post := &SpecEnv{c: c, st: st, heap: st.heap, vars: map[string]Val{}, pkg: env.pkg, frame: frame}
 	old := &SpecEnv{c: c, st: st, heap: preHeap, vars: map[string]Val{}, pkg: env.pkg, frame: frame, isOld: true, alloc: preAlloc}
@@ -475,6 +495,13 @@ func (c *FnCtx) callByContract(frame *Frame, st *State, in ssa.Instruction, call
 		c.note("assumed lemma " + shortKey(key) + ":" + e.Label + " (" + e.Text + "): not checked against the body")
 	}
 	k(st, res)
+	}
+	if len(fc.Callbacks) > 0 && callee != nil {
+		if c.applyCallbacks(frame, st, in, callee, fc, key, names, args, env, preHeap, res, finish) {
+			return
+		}
+	}
+	finish(st, res)
 }
 
 func (c *FnCtx) bindResults(env *SpecEnv, callee *ssa.Function, fc *FuncContract, res Val, rt types.Type) {
